@@ -5,12 +5,24 @@ C3 == {1, 2, 3}
 AllIds == MinId..MaxId
 NearWrap == {MaxId - 2, MaxId - 1, MaxId}
 NearZero == {-3, -2, -1}
+WrapAndZero == NearWrap \cup NearZero
+TwoStarts == {MaxId - 1, -2}
 TO3 == [c \in C3 |-> IF c = 2 THEN 2 ELSE 1]
 TO2 == [c \in C2 |-> c]
+TO3b == [c \in C3 |-> IF c = 2 THEN 3 ELSE 1]
+TO2b == [c \in C2 |-> IF c = 2 THEN 3 ELSE 1]
+AllModes == {"accept", "refuse", "blackhole"}
 \* a peer that answers every request it received exactly once and sends nothing else
 Polite == /\ \A q \in DOMAIN pkt : pkt[q].id \in DOMAIN seen
           /\ \A q, r \in DOMAIN pkt : q # r => pkt[q].id # pkt[r].id
 F1 == {-5}
+F0 == {0}
+FAll == {-5, 0, GARB}
+FPre == {4, 0}
 Local == {"cas", "add", "pre", "sel", "reg1", "unreg1", "post"}
-\* at most one connection loss per run keeps the timed runs small
+LocalAll == Local \cup {"spawned", "sendq"}
+LocalRx == {"spawned", "sendq"}
+\* ... then connection.invokeNum is back to 0 once every request has been answered and received
+PoliteDone == Polite /\ wire = {} /\ \A i \in DOMAIN seen : \E q \in DOMAIN pkt : pkt[q].id = i
+TransportBackPolite == (Quiet /\ sendQ = {} /\ PoliteDone /\ \A q \in DOMAIN rst : rst[q] # "net") => tInvoke = 0
 ====
